@@ -242,12 +242,21 @@ class Report:
         self.known_hit = {}
         self.known = [f for f in load_findings() if f["property"] == pid and f.get("status") == "known"]
 
+    def wants_payload(self, signature):
+        """False once enough replay files exist for this signature (payloads are costly to build)."""
+        return sum(1 for v in self.violations if v[0] == signature) < 3
+
     def violation(self, signature, payload, text=""):
+        if callable(payload):
+            payload = payload() if self.wants_payload(signature) else {"note": "further occurrence, see first replay files"}
         for f in self.known:
             if f["signature"] == signature or (f.get("signature_regex") and re.fullmatch(f["signature_regex"], signature)):
                 self.known_hit.setdefault(f["signature"], f)
                 return
-        path = write_replay(self.pid, {"property": self.pid, "signature": signature, "detail": payload})
+        if self.wants_payload(signature):
+            path = write_replay(self.pid, {"property": self.pid, "signature": signature, "detail": payload})
+        else:
+            path = [v[1] for v in self.violations if v[0] == signature][0]
         self.violations.append((signature, path, text))
 
     def finish(self):
